@@ -21,7 +21,7 @@ use domain::base::message::Message;
 use domain::base::message_builder::{HashCompressor, MessageBuilder, StaticCompressor, TreeCompressor};
 use domain::base::name::{FlattenInto, Name, ParsedName, ToName};
 use octseq::OctetsFrom;
-use domain::base::rdata::{ComposeRecordData, ParseAnyRecordData, UnknownRecordData};
+use domain::base::rdata::{ComposeRecordData, ParseAnyRecordData, RecordData, UnknownRecordData};
 use domain::base::wire::ParseError;
 use domain::base::{Record, Serial, Ttl};
 use domain::rdata::dnssec::Timestamp;
@@ -494,6 +494,46 @@ fn eq_class<O, N>(d: &AllRecordData<O, N>, tn: &str) -> String {
     }
 }
 
+/// Every way to reach the same composition must give the same octets: the provided
+/// length-prefixed methods, the blanket impl for references, Record::compose_canonical
+/// with the data held by value or by reference.
+fn equivalent_paths(out: &mut Out, tn: &str, case: &str, built: &Built, wire: &[u8], canon: &[u8]) {
+    fn pre(b: &[u8]) -> Vec<u8> { let mut v = (b.len() as u16).to_be_bytes().to_vec(); v.extend_from_slice(b); v }
+    let r = catch_mut(|| {
+        let mut res: Vec<(&'static str, &'static str, Vec<u8>, Vec<u8>)> = vec![];
+        macro_rules! path { ($kind:expr, $what:expr, $expect:expr, $call:expr) => {{ let mut t: Vec<u8> = Vec::new(); $call(&mut t).unwrap(); res.push(($kind, $what, t, $expect)); }}}
+        let rf: &Built = built; let rrf: &&Built = &rf;
+        path!("rdlen", "compose_len_rdata", pre(wire), |t: &mut Vec<u8>| built.compose_len_rdata(t));
+        path!("rdlen", "<&T>::compose_len_rdata", pre(wire), |t: &mut Vec<u8>| rf.compose_len_rdata(t));
+        path!("rdlen", "<&&T>::compose_len_rdata", pre(wire), |t: &mut Vec<u8>| rrf.compose_len_rdata(t));
+        path!("roundtrip", "<&T>::compose_rdata", wire.to_vec(), |t: &mut Vec<u8>| rf.compose_rdata(t));
+        path!("canonical", "<&T>::compose_canonical_rdata", canon.to_vec(), |t: &mut Vec<u8>| rf.compose_canonical_rdata(t));
+        path!("canonical", "compose_canonical_len_rdata", pre(canon), |t: &mut Vec<u8>| built.compose_canonical_len_rdata(t));
+        path!("canonical", "<&T>::compose_canonical_len_rdata", pre(canon), |t: &mut Vec<u8>| rf.compose_canonical_len_rdata(t));
+        path!("canonical", "<&&T>::compose_canonical_len_rdata", pre(canon), |t: &mut Vec<u8>| rrf.compose_canonical_len_rdata(t));
+        // whole records: owner "Ab." class IN ttl 7
+        let owner: DN = Name::from_octets(vec![2, b'A', b'b', 0]).unwrap();
+        let mut head = vec![2, b'a', b'b', 0]; head.extend_from_slice(&built.rtype().to_int().to_be_bytes()); head.extend_from_slice(&[0, 1, 0, 0, 0, 7]);
+        let mut exp = head.clone(); exp.extend_from_slice(&pre(canon));
+        let by_val = Record::new(owner.clone(), Class::IN, Ttl::from_secs(7), built.clone());
+        let by_ref = Record::new(owner.clone(), Class::IN, Ttl::from_secs(7), rf);
+        path!("canonical", "Record<_, D>::compose_canonical", exp.clone(), |t: &mut Vec<u8>| by_val.compose_canonical(t));
+        path!("canonical", "Record<_, &D>::compose_canonical", exp.clone(), |t: &mut Vec<u8>| by_ref.compose_canonical(t));
+        let mut exp2 = vec![2, b'A', b'b', 0]; exp2.extend_from_slice(&head[4..]); exp2.extend_from_slice(&pre(wire));
+        path!("rdlen", "Record<_, &D>::compose", exp2.clone(), |t: &mut Vec<u8>| by_ref.compose(t));
+        (res, rf.rdlen(false), built.rdlen(false))
+    });
+    match r {
+        Ok((res, l1, l2)) => {
+            for (kind, what, got, expect) in res {
+                chk(out, got == expect, &format!("{}_{}", kind, tn), case, &format!("{} wrote {} instead of {}", what, hex(&got), hex(&expect)));
+            }
+            chk(out, l1 == l2, &format!("rdlen_{}", tn), case, "<&T>::rdlen differs");
+        }
+        Err(e) => chk(out, false, &format!("compose_panic_{}", tn), case, &format!("an equivalent compose path panicked: {}", e)),
+    }
+}
+
 /// Octets-generic conversions keep the value: OctetsFrom (Vec -> Bytes) on the built value,
 /// FlattenInto (ParsedName -> Name<Vec>) on a parsed one.
 fn conversions(out: &mut Out, tn: &str, case: &str, built: &Built, parsed: &AllRecordData<&[u8], ParsedName<&[u8]>>, v: Option<&[Val]>, wire: &[u8]) {
@@ -571,6 +611,7 @@ fn compose_case(out: &mut Out, r: &mut Rng, t: u16, v: &[Val], kind: &str) {
     let lv = lower_names(t, v);
     let expect = match build(t, &lv) { Ok(b) => compose_plain(&b).unwrap_or_default(), Err(()) => vec![] };
     chk(out, canon == expect, &format!("canonical_{}", tn), &case, &format!("canonical {} expected {}", hex(&canon), hex(&expect)));
+    if total < 5000 { equivalent_paths(out, &tn, &case, &built, &wire, &canon); }
     // through a message with a compressor
     if total < 60000 && !short_rest { message_path(out, r, t, Some(v), &built, &case); }
 }
@@ -795,6 +836,85 @@ fn viamsg_case(out: &mut Out, r: &mut Rng, target: u64, t: u16, v: &[Val]) {
     chk(out, lens_ok, &format!("rdlen_{}", tn), &case, "RDLENGTH in the message does not match the RDATA octets");
 }
 
+/// T2: the provided length-prefixed methods, called through a reference
+fn lenrdata_case(out: &mut Out, t: u16, v: &[Val]) {
+    let built = match catch_mut(|| build(t, v)) { Ok(Ok(b)) => b, _ => return };
+    let case = format!("lenrdata {} {}", t, toks(v));
+    out.begin(&case);
+    let r = catch_mut(|| { let rf: &Built = &built; let mut a: Vec<u8> = Vec::new(); rf.compose_len_rdata(&mut a).unwrap();
+                           let mut b: Vec<u8> = Vec::new(); rf.compose_canonical_len_rdata(&mut b).unwrap(); (a, b) });
+    match r { Ok((a, b)) => out.case(&case, &format!("{} {}", hex(&a), hex(&b)), true, "lenrdata"),
+              Err(_) => out.case(&case, "Panic", true, "lenrdata") }
+}
+
+/// TxtBuilder: the alternative way to construct TXT data.  T2 `txtbuild` plus oracle
+///   txtbuilder_text       the text of the built value is what was appended
+///   txtbuilder_roundtrip  the built value composes to RDATA that parses to an equal value,
+///                         is accepted by Txt::from_octets and equals build_from_slice of the text
+fn txtbuild_case(out: &mut Out, ops: &[(char, Vec<u8>)], kind: &str) {
+    use domain::rdata::rfc1035::TxtBuilder;
+    let case = format!("txtbuild {}", if ops.is_empty() { ".".to_string() } else { ops.iter().map(|(k, d)| format!("{}:{}", k, hex(d))).collect::<Vec<_>>().join(" ") });
+    out.begin(&case);
+    let r = catch_mut(|| -> Result<Txt<Vec<u8>>, ()> {
+        let mut b = TxtBuilder::<Vec<u8>>::new();
+        for (k, d) in ops {
+            match k { 's' => b.append_slice(d).map_err(|_| ())?,
+                      'u' => { for x in d { b.append_u8(*x).map_err(|_| ())?; } }
+                      _ => b.append_charstr(&CharStr::from_octets(d.clone()).map_err(|_| ())?).map_err(|_| ())? }
+        }
+        b.finish().map_err(|_| ())
+    });
+    let txt = match r {
+        Ok(Ok(t)) => t,
+        Ok(Err(())) => { out.case(&case, "Reject", false, kind); chk(out, false, "txtbuilder_roundtrip", &case, "builder refused text well below the size limit"); return; }
+        Err(e) => { out.case(&case, "Panic", true, kind); chk(out, false, "txtbuilder_panic", &case, &e); return; }
+    };
+    let built: Built = AllRecordData::Txt(txt.clone());
+    let wire = compose_plain(&built).unwrap_or_default();
+    out.case(&case, &hex(&wire), true, kind);
+    let text: Vec<u8> = ops.iter().flat_map(|(_, d)| d.clone()).collect();
+    // structure of the octets, independent of the library's own iterator
+    let mut strs: Vec<Vec<u8>> = vec![]; let mut i = 0; let mut framed = true;
+    while i < wire.len() { let l = wire[i] as usize; if i + 1 + l > wire.len() { framed = false; break; } strs.push(wire[i + 1..i + 1 + l].to_vec()); i += 1 + l; }
+    chk(out, framed && strs.concat() == text && !strs.is_empty(), "txtbuilder_text", &case,
+        &format!("built RDATA {} does not frame the appended text", if wire.len() > 40 { format!("{}...", hex(&wire[..40])) } else { hex(&wire) }));
+    chk(out, Txt::from_octets(wire.clone()).is_ok(), "txtbuilder_roundtrip", &case, "Txt::from_octets refuses the built RDATA");
+    match parse_at(16, &wire, 0, wire.len()) {
+        Ok(Ok(p)) => { chk(out, catch_mut(|| p == built).unwrap_or(false), "txtbuilder_roundtrip", &case, "parsed value != built value");
+                       chk(out, explode(&p) == Some(vec![Val::Strs(strs.clone())]), "txtbuilder_roundtrip", &case, "parsed strings differ from the built octets"); }
+        _ => chk(out, false, "txtbuilder_roundtrip", &case, "built RDATA does not parse"),
+    }
+    match catch_mut(|| txt.text::<Vec<u8>>()) {
+        Ok(t) => chk(out, t == text, "txtbuilder_text", &case, "Txt::text() differs from the appended text"),
+        Err(e) => chk(out, false, "txtbuilder_panic", &case, &format!("Txt::text() of the built value panicked: {}", e)),
+    }
+    if !ops.iter().any(|(k, _)| *k == 'c') && !text.is_empty() {
+        match Txt::<Vec<u8>>::build_from_slice(&text) { Ok(t2) => { let same = catch_mut(|| t2 == txt).unwrap_or(false); chk(out, same, "txtbuilder_roundtrip", &case, "differs from build_from_slice of the same text") }
+                                                        Err(_) => chk(out, false, "txtbuilder_roundtrip", &case, "build_from_slice refused the text") }
+    }
+}
+fn txtbuild_cases(out: &mut Out, r: &mut Rng, n: u64) {
+    let a = |k: usize| vec![b'a'; k];
+    txtbuild_case(out, &[], "corpus");
+    txtbuild_case(out, &[('u', a(255))], "corpus");
+    txtbuild_case(out, &[('u', a(256))], "corpus");
+    txtbuild_case(out, &[('u', a(257))], "corpus");
+    txtbuild_case(out, &[('s', a(254)), ('u', vec![1, 2])], "corpus");
+    txtbuild_case(out, &[('s', a(255)), ('u', vec![1])], "corpus");
+    txtbuild_case(out, &[('s', a(300)), ('u', a(300)), ('s', a(211))], "corpus");
+    txtbuild_case(out, &[('u', vec![1]), ('c', a(255)), ('u', a(255)), ('u', vec![2])], "corpus");
+    for _ in 0..n {
+        let k = 1 + r.below(5) as usize;
+        let ops: Vec<(char, Vec<u8>)> = (0..k).map(|_| {
+            let kind = *r.pick(&['s', 'u', 'u', 'c']);
+            let len = match r.below(8) { 0 => 0usize, 1 => 254, 2 => 255, 3 => 256, 4 => 1, 5 => 510 + r.below(4) as usize, _ => r.below(300) as usize };
+            let len = if kind == 'c' { len.min(255) } else { len };
+            (kind, r.bytes(len))
+        }).collect();
+        txtbuild_case(out, &ops, "txtbuild");
+    }
+}
+
 /// parse cases derived from one value
 fn parse_cases_for(out: &mut Out, r: &mut Rng, t: u16, v: &[Val]) {
     let fs = fields_v(t, v);
@@ -926,6 +1046,7 @@ mod irregular {
         chk(out, rl == Ok(Some(wire.len() as u16)), &format!("rdlen_{}", tn), &case, &format!("rdlen {} but {} octets written", show_rdlen(&rl), wire.len()));
         let rlc = catch_mut(|| built.rdlen(true));
         chk(out, rlc == Ok(Some(wire.len() as u16)), &format!("rdlen_{}", tn), &case, "rdlen(true) differs");
+        if wire.len() < 5000 { equivalent_paths(out, &tn, &case, built, &wire, &canon); }
         // none of these types is in the RFC 4034 6.2 / RFC 6840 5.1 list
         chk(out, canon == wire, &format!("canonical_{}", tn), &case, &format!("canonical {} differs from wire {}", hex(&canon), hex(&wire)));
         match parse_at(t, &wire, 0, wire.len()) {
@@ -1629,8 +1750,10 @@ fn main() {
             let v2 = gen_value(&mut r, t, false);
             parse_cases_for(&mut out, &mut r, t, &v2);
             if i % 2 == 0 { let tg = r.below(4); viamsg_case(&mut out, &mut r, tg, t, &v2); }
+            if i % 3 == 0 && vlen(&fields_v(t, &v2), &v2) < 3000 { lenrdata_case(&mut out, t, &v2); }
         }
     }
+    txtbuild_cases(&mut out, &mut r, n);
     irregular::run(&mut out, &mut r, n);
     edns::run(&mut out, &mut r, n);
     svc::run(&mut out, &mut r, n);
